@@ -112,6 +112,9 @@ func genC07Maps(level int) []*MapScen {
 				add(&MapScen{Rel: RelSD, NKeys: 3, Init: []int{1, 1, 0}, Table: TChain2, FillFirst: ff, Threads: [][]MIn{{opRange}, {on(w, 2)}}})
 			}
 		}
+		// traversal / lookups while a chain is extended by a new bucket
+		add(&MapScen{Rel: RelSD, NKeys: 3, Init: []int{0, 1, 1}, Table: TFullChain, Threads: [][]MIn{{opRange}, {on(opStore, 0)}}})
+		add(&MapScen{Rel: RelSD, NKeys: 3, Init: []int{0, 1, 1}, Table: TFullChain, Threads: [][]MIn{{opRange}, {on(opStore, 0), on(opDelete, 1)}}})
 		// traversal while the table grows / shrinks
 		add(&MapScen{Rel: RelSD, NKeys: 2, Init: []int{0, 1}, Table: TGrowArmed, Threads: [][]MIn{{opRange}, {on(opStore, 0)}}, ExpectGrow: true})
 		add(&MapScen{Rel: RelLate, NKeys: 2, Init: []int{0, 1}, Table: TGrowArmed, Threads: [][]MIn{{opRange}, {on(opStore, 0)}}, ExpectGrow: true})
@@ -260,7 +263,11 @@ func genC16Maps(level int) []*MapScen {
 					add(&MapScen{Rel: RelSS, NKeys: 2, Init: []int{0, 1}, Table: TPlain, Threads: [][]MIn{{on(rd, 0)}, {on(st, 1)}}})
 				}
 			}
-			// resizes in flight
+			// chain extension and resizes in flight
+			add(&MapScen{Rel: RelSD, NKeys: 2, Init: []int{0, 1}, Table: TFullChain, Threads: [][]MIn{{on(rd, 1)}, {on(opStore, 0)}}})
+			if rd.Op == MLoad {
+				add(&MapScen{Rel: RelSD, NKeys: 2, Init: []int{0, 1}, Table: TFullChain, Threads: [][]MIn{{on(rd, 0)}, {on(opStore, 0)}}})
+			}
 			add(&MapScen{Rel: RelSD, NKeys: 2, Init: []int{0, 1}, Table: TGrowArmed, Threads: [][]MIn{{on(rd, 1)}, {on(opStore, 0)}}, ExpectGrow: true})
 			add(&MapScen{Rel: RelLate, NKeys: 2, Init: []int{0, 1}, Table: TGrowArmed, Threads: [][]MIn{{on(rd, 1)}, {on(opStore, 0)}}, ExpectGrow: true})
 			add(&MapScen{Rel: RelDD, NKeys: 2, Init: []int{1, 1}, Table: TShrinkArmed, Threads: [][]MIn{{on(rd, 1)}, {on(opDelete, 0)}}, ExpectShrink: true})
